@@ -17,7 +17,7 @@ from ..world import CONTAINERS, Session, is_contextual, make_lp, make_np
 
 ID = "C18"
 LEVEL = "exploration"
-QUICK_RUNS = 800
+QUICK_RUNS = 3200
 RULE = ("Each run: drawn policy combination (default-constructed policy tuples included), integer-valued data; primary fed "
         "lists, replica fed a container drawn per operation (ndarray C/F/transposed/non-contiguous, int/float dtype, "
         "Series, DataFrame, single-row/single-feature Series); snapshots of all caller objects around every call; the "
@@ -49,8 +49,9 @@ def generate(rnd, tier, index=0):
         default_np = True
     ctxl = is_contextual(cfg)
     d = rnd.randint(1, 3)
-    ops = gen.gen_history(rnd, cfg, spare, d, "exact", rnd.randint(4, 12), warm=True, max_rows=10,
-                          arm_changes=not (cfg["np"] and cfg["np"][1].get("no_nhood_prob_of_arm")))
+    # arm changes also with an explicit no_nhood_prob_of_arm list: a later empty-neighbourhood predict raises for list-fed
+    # primary and replica alike (caller inconsistency, no claim), but the caller's list must still not be touched
+    ops = gen.gen_history(rnd, cfg, spare, d, "exact", rnd.randint(4, 12), warm=True, max_rows=10)
     for op in ops:
         if op["op"] in ("fit", "partial_fit", "predict", "expect"):
             choices = list(CONTAINERS)
